@@ -62,3 +62,10 @@ func init() {
 		}),
 	)
 }
+
+func init() {
+	extend("C25", "R25e (added after a seeded change was missed): no loop in package blockchain ranges over a map/slice field that the calls in its body modify (the orphan pool removes children while walking them: the walk must re-read the collection, not range over it).",
+		rule("R25e", "collections are not mutated under a range loop", 5, func(r *Run) {
+			core.NoRangeMutation{Pkgs: []string{"blockchain"}, Depth: 3, Min: 5}.Check(r)
+		}))
+}
